@@ -136,20 +136,32 @@ def parse_enums(src):
     return out
 
 def parse_opcode_from(src):
+    """The u32 -> Opcode table.  Accepts the table inside `impl From<u32> for Opcode` or inside a private helper
+    (`fn from_raw(op: u32) -> Option<Opcode>`) that `From<u32>` calls with `.unwrap_or(Opcode::X)`; the scrutinee may
+    have any name.  Whatever is read here is compared with rustc's `Opcode::from` on thousands of values by the probe."""
     m = re.search(r'impl\s+From<u32>\s+for\s+Opcode\s*\{', src)
     if not m: raise TranslateError('impl From<u32> for Opcode not found')
     end = match_brace(src, m.end() - 1)
-    body = src[m.end():end - 1]
-    mm = re.search(r'match\s+op\s*\{', body)
-    if not mm: raise TranslateError('match op not found in From<u32> for Opcode')
-    mend = match_brace(body, mm.end() - 1)
-    arms_src = body[mm.end():mend - 1]
+    from_body = src[m.end():end - 1]
+    arms_src = None
+    for mm in re.finditer(r'match\s+\w+\s*\{', src):
+        mend = match_brace(src, mm.end() - 1)
+        cand = src[mm.end():mend - 1]
+        if len(re.findall(r'\d+\s*=>\s*(?:Some\(\s*)?Opcode::\w+', cand)) >= 20:
+            arms_src = cand; break
+    if arms_src is None: raise TranslateError('opcode table (match with N => Opcode::X arms) not found')
+    outer_default = None
+    dm = re.search(r'unwrap_or(?:_else)?\(\s*(?:\|\|\s*)?Opcode::(\w+)\s*\)', from_body)
+    if dm: outer_default = dm.group(1)
     arms = []; default = None
     for part in arms_src.split(','):
         part = part.strip()
         if not part: continue
-        am = re.fullmatch(r'(.+?)\s*=>\s*Opcode::(\w+)', part, flags=re.S)
-        if not am: raise TranslateError('cannot parse match arm %r' % part)
+        am = re.fullmatch(r'(.+?)\s*=>\s*(?:Some\(\s*)?Opcode::(\w+)\s*\)?', part, flags=re.S)
+        if not am:
+            if re.fullmatch(r'_\s*=>\s*(?:return\s+)?None', part) and outer_default is not None:
+                default = outer_default; continue
+            raise TranslateError('cannot parse match arm %r' % part)
         pat, tgt = am.group(1).strip(), am.group(2)
         if pat == '_':
             default = tgt
@@ -195,10 +207,20 @@ def fn_body(src, header_re):
     end = match_brace(src, i)
     return src[i + 1:end - 1]
 
+def hoisted_locals(body, src_var):
+    """`let x = src.f as T;` bindings in front of the literal / assignments (a pure read given a name)"""
+    b = {}
+    for m in re.finditer(r'\blet\s+(\w+)(?:\s*:\s*\w+)?\s*=\s*([^;]+);', body):
+        rhs = m.group(2).strip()
+        if re.fullmatch(src_var + r'\.\w+(?:\s+as\s+\w+)*', rhs) or re.fullmatch(r'\w+::from\(\s*' + src_var + r'\.\w+\s*\)', rhs):
+            b[m.group(1)] = rhs
+    return b
+
 def parse_conv_literal(body, struct_name, src_var, dst_types, src_types):
     """Struct-literal style: `Name { dst: src_var.src as T, ... }` -> [(dst, src|None, [types...])]"""
-    m = re.search(r'\b' + struct_name + r'\s*\{', body)
+    m = re.search(r'\b(?:' + struct_name + r'|Self)\s*\{', body)
     if not m: raise TranslateError('literal %s {..} not found' % struct_name)
+    binds = hoisted_locals(body, src_var)
     end = match_brace(body, m.end() - 1)
     inner = body[m.end():end - 1]
     inner = re.sub(r'#\[[^\]]*\]', '', inner)
@@ -213,6 +235,8 @@ def parse_conv_literal(body, struct_name, src_var, dst_types, src_types):
             dst, rhs = part, part
         else:
             raise TranslateError('cannot parse conversion field %r' % part)
+        if rhs in binds: rhs = binds[rhs]
+        if re.fullmatch(r'0|\[\s*0\s*;\s*\d+\s*\]|Default::default\(\)', rhs): continue    # explicit zero = the derived default
         rows.append(conv_row(dst, rhs, src_var, dst_types, src_types))
     return rows
 
@@ -236,9 +260,23 @@ def conv_row(dst, rhs, src_var, dst_types, src_types):
 
 def parse_conv_assign(body, dst_var, src_var, dst_types, src_types):
     rows = []
+    binds = hoisted_locals(body, src_var)
     for m in re.finditer(r'\b' + dst_var + r'\.(\w+)\s*=\s*([^;]+);', body):
-        rows.append(conv_row(m.group(1), m.group(2).strip(), src_var, dst_types, src_types))
+        rhs = m.group(2).strip()
+        if rhs in binds: rhs = binds[rhs]
+        rows.append(conv_row(m.group(1), rhs, src_var, dst_types, src_types))
+    if not rows: raise TranslateError('no `%s.field = ...;` assignments found in conversion' % dst_var)
     return rows
+
+def fn_vars(src, header_re):
+    """(name of the first parameter, name of the `let mut x` result variable or None) of the function matched by header_re"""
+    m = re.search(header_re, src)
+    if not m: raise TranslateError('conversion %r not found' % header_re)
+    pm = re.compile(r'\(\s*(\w+)\s*:').search(src, m.end() - 1)
+    if not pm: raise TranslateError('parameter of %r not found' % header_re)
+    i = src.index('{', pm.end()); end = match_brace(src, i)
+    lm = re.search(r'\blet\s+mut\s+(\w+)', src[i:end])
+    return pm.group(1), (lm.group(1) if lm else None)
 
 def struct_field_types(structs, name):
     for n, fs in structs:
@@ -263,11 +301,13 @@ def translate(repo='/repo', lenient_conv=False):
     attr_t = struct_field_types(structs, 'Attr')
     kst_t = struct_field_types(structs, 'Kstatfs')
     set_t = struct_field_types(structs, 'SetattrIn')
+    H1 = r'pub\s+fn\s+with_flags\s*\('; H2 = r'impl\s+From<Attr>\s+for\s+stat64\s*\{\s*fn\s+from'
+    H3 = r'impl\s+From<statvfs64>\s+for\s+Kstatfs\s*\{\s*fn\s+from'; H4 = r'impl\s+From<SetattrIn>\s+for\s+stat64\s*\{\s*fn\s+from'
     conv_specs = [
-        ('attr_of_stat', lambda: parse_conv_literal(fn_body(s1, r'pub\s+fn\s+with_flags\s*\('), 'Attr', 'st', attr_t, STAT64)),
-        ('stat_of_attr', lambda: parse_conv_assign(fn_body(s1, r'impl\s+From<Attr>\s+for\s+stat64\s*\{\s*fn\s+from'), 'out', 'attr', STAT64, attr_t)),
-        ('kstatfs_of_statvfs', lambda: parse_conv_literal(fn_body(s1, r'impl\s+From<statvfs64>\s+for\s+Kstatfs\s*\{\s*fn\s+from'), 'Kstatfs', 'st', kst_t, STATVFS64)),
-        ('stat_of_setattr', lambda: parse_conv_assign(fn_body(s1, r'impl\s+From<SetattrIn>\s+for\s+stat64\s*\{\s*fn\s+from'), 'out', 'setattr', STAT64, set_t)),
+        ('attr_of_stat', lambda: parse_conv_literal(fn_body(s1, H1), 'Attr', fn_vars(s1, H1)[0], attr_t, STAT64)),
+        ('stat_of_attr', lambda: parse_conv_assign(fn_body(s1, H2), fn_vars(s1, H2)[1] or 'out', fn_vars(s1, H2)[0], STAT64, attr_t)),
+        ('kstatfs_of_statvfs', lambda: parse_conv_literal(fn_body(s1, H3), 'Kstatfs', fn_vars(s1, H3)[0], kst_t, STATVFS64)),
+        ('stat_of_setattr', lambda: parse_conv_assign(fn_body(s1, H4), fn_vars(s1, H4)[1] or 'out', fn_vars(s1, H4)[0], STAT64, set_t)),
     ]
     conv = {}; conv_errors = {}
     for cname, thunk in conv_specs:
